@@ -83,6 +83,7 @@ def canon(s):
 
 
 LOOP_BODY: Dict[int, "S"] = {}  # loopvar placeholder id -> value at the end of the loop body
+LOOP_PH: Dict[int, "S"] = {}  # loopvar placeholder id -> the placeholder node
 SITE_OF: Dict[int, tuple] = {}  # untagged node id (subscripts) -> first source site (relpath, line, col)
 
 
@@ -250,6 +251,7 @@ def reset_state():
     the analysed sources)."""
     _INTERN.clear()
     LOOP_BODY.clear()
+    LOOP_PH.clear()
     SITE_OF.clear()
     _VATOMS.clear()
     SELF._canon = None
@@ -893,6 +895,7 @@ class Interp:
                 endv = self.frame.locals.get(key) if kind == "local" else (ref.cells.get(key) if kind == "cell" else self.selfattrs.get(key))
                 if isinstance(endv, S) and endv is not ph:
                     LOOP_BODY[ph.id] = endv
+                    LOOP_PH[ph.id] = ph
             if kind == "local":
                 cur = self.frame.locals.get(key)
                 if isinstance(cur, S) and cur is not ph:
